@@ -24,7 +24,7 @@ func init() {
 			return map[string]int{"c04.table": c04Conds * c04States * c04Ops * 2}
 		},
 	})
-	expectedProbes["C04"] = []string{"c04.pass", "c04.fail_412", "c04.fail_304", "c04.junk_400", "c04.absent", "c04.resumable_changed_meanwhile", "c04.compose_source_generation", "c04.compose_repeated_source_condition"}
+	expectedProbes["C04"] = []string{"c04.pass", "c04.fail_412", "c04.fail_304", "c04.junk_400", "c04.absent", "c04.resumable_changed_meanwhile", "c04.compose_source_generation", "c04.compose_repeated_source_condition", "c04.conditional_request_in_batch"}
 }
 
 // condsFromIndex decodes a truth-table index into parameters relative to the current object.
@@ -194,6 +194,12 @@ func runC04(r *Run) {
 			op = gOp{Kind: "Compose", Bucket: "bkt", Name: name, Conds: dc, Srcs: srcs, SrcGens: gens, DstMeta: map[string]interface{}{"contentType": "text/plain"}}
 		}
 		shapes = append(shapes, fmt.Sprintf("%d/%d/%d", opk, st, ci))
+		if (opk == 3 || opk == 4) && splitmix(uint64(it)+77)&3 == 3 {
+			// the same request as the only part of a batch: the conditions travel in the
+			// sub-request's query string and must be honoured just the same
+			w.ViaBatch = true
+			r.Probe("c04.conditional_request_in_batch")
+		}
 		if _, ok := step(op); !ok {
 			return
 		}
